@@ -43,6 +43,13 @@ def atom_truth(name, op, value, literal_left, envval):
         if op == "!=":
             return v not in ex
         raise Undefined()
+    if name in ("extras", "dependency_groups"):
+        # PEP 751 set-valued variables: only `"name" in extras` / `"name" not in extras` are defined (normalised names)
+        if not literal_left or op not in ("in", "not in"):
+            raise Undefined()
+        vals = {normalize_name(v) for v in (envval if isinstance(envval, (set, frozenset)) else {envval})}
+        hit = normalize_name(value) in vals
+        return hit if op == "in" else not hit
     lhs, rhs = (value, envval) if literal_left else (envval, value)
     if op not in ("in", "not in"):
         try:
